@@ -43,6 +43,9 @@
        UncappedSpaceCount          ODF: <text:s text:c="N"/> materialises N spaces
        DenseGridFromSparseCells    XLSX: rows/cells between sparse cells are padded (rows x columns)
        XrefPrevLoop                pypdf: an xref /Prev cycle is followed for ever
+       FromLineNestedQuantifier    mbox: MBOX_FROM_PATTERN (a non-space run followed by an any-run) needs quadratic time on a long unmatched "From xxxx" line
+       PngScanRestartsInsideImage  doc: the PNG scan resumes one byte after a signature, also after an accepted picture,
+                                   so nested signatures yield n overlapping copies
    Sensitivity-only deviations (mutations the check must catch; never as-built):
        FlipCompare (> becomes >=), GuardAfterLoad, DecompressBeforeCheck, NoEmptyCap, PlainXmlParser,
        NoOutputLimit (7z: LZMA2 folder decompressed without output limit -- the behaviour before
@@ -54,7 +57,9 @@
        members are filtered with their successor's size), ConfigureForgetsLimit (a configuration call that does
        not mention max_memory_size resets it to the 50 MiB constant), ImageScanNoProgress (a picture-header
        scanner that does not advance over a zero-length segment), ExtractAllIgnoresFilter (7z: extractall()
-       decompresses and writes every folder / member -- the behaviour before /repo 62243a0, KF-C12-02 fixed).
+       decompresses and writes every folder / member -- the behaviour before /repo 62243a0, KF-C12-02 fixed),
+       DibScanAdvancesByHeader (doc: the bitmap scan advances by the 40-byte header instead of the bitmap),
+       FromLineSecondStar (mbox: a second any-run after the year in the separator pattern).
 
    DON'T-CAREs: max_file_size < 0; whether read_file stats the file when max_file_size = 0; the attributes
    of the TooLarge exception; in-memory decompression of a skipped member that shares a solid 7z folder with
@@ -66,12 +71,12 @@ EXTENDS Naturals, Sequences, FiniteSets, TLC
 
 CONSTANT Deviations
 
-AsBuiltDeviations == {"UncappedNonEmptyRepeat",
+AsBuiltDeviations == {"UncappedNonEmptyRepeat", "FromLineNestedQuantifier", "PngScanRestartsInsideImage",
                       "UnboundedVectorCount", "UncappedSpaceCount", "DenseGridFromSparseCells", "XrefPrevLoop"}
 SensitivityDeviations == {"FlipCompare", "GuardAfterLoad", "DecompressBeforeCheck", "NoEmptyCap", "PlainXmlParser",
                           "NoOutputLimit", "GuardOnLinkSize", "FollowLinksUnchecked", "ReadByNameLast",
                           "EmptyFileTakesSizeSlot", "ConfigureForgetsLimit", "ImageScanNoProgress",
-                          "ExtractAllIgnoresFilter"}
+                          "ExtractAllIgnoresFilter", "DibScanAdvancesByHeader", "FromLineSecondStar"}
 DeviationNames == AsBuiltDeviations \cup SensitivityDeviations
 ASSUME Deviations \subseteq DeviationNames
 
@@ -156,25 +161,28 @@ Cell(rep, empty) == [rep |-> rep, empty |-> empty]
 Row(rep, cells)  == [rep |-> rep, cells |-> cells]
 Ord == Cell(1, FALSE)
 
+\* positions of the typed-but-empty families carry the markup variant: "<variant>.<first|last>"
+IsFirst(pos) == pos \in {"first", "string_p.first", "string_nop.first", "string_attr.first", "string_span.first"}
 OdsSheet(c, mag, pos) ==
     CASE c = "ods_cell_repeat" ->
-           <<Row(1, IF pos = "first" THEN <<Cell(mag, FALSE), Ord, Ord, Ord>> ELSE <<Ord, Ord, Ord, Cell(mag, FALSE)>>),
+           <<Row(1, IF IsFirst(pos) THEN <<Cell(mag, FALSE), Ord, Ord, Ord>> ELSE <<Ord, Ord, Ord, Cell(mag, FALSE)>>),
              Row(1, <<Ord, Ord, Ord>>)>>
-      [] c = "ods_cell_repeat_empty" ->
-           <<Row(1, IF pos = "first" THEN <<Cell(mag, TRUE), Ord, Ord, Ord>> ELSE <<Ord, Ord, Ord, Cell(mag, TRUE)>>),
+      [] c \in {"ods_cell_repeat_empty", "ods_cell_repeat_typed_empty"} ->   \* typed (value-type string) but no text: empty
+           <<Row(1, IF IsFirst(pos) THEN <<Cell(mag, TRUE), Ord, Ord, Ord>> ELSE <<Ord, Ord, Ord, Cell(mag, TRUE)>>),
              Row(1, <<Ord, Ord, Ord>>)>>
       [] c = "ods_row_repeat" ->
-           IF pos = "first" THEN <<Row(mag, <<Ord, Ord>>), Row(1, <<Ord, Ord>>), Row(1, <<Ord, Ord>>)>>
+           IF IsFirst(pos) THEN <<Row(mag, <<Ord, Ord>>), Row(1, <<Ord, Ord>>), Row(1, <<Ord, Ord>>)>>
                             ELSE <<Row(1, <<Ord, Ord>>), Row(1, <<Ord, Ord>>), Row(mag, <<Ord, Ord>>)>>
-      [] c = "ods_row_repeat_empty" ->
-           IF pos = "first" THEN <<Row(mag, <<Cell(1, TRUE), Cell(1, TRUE)>>), Row(1, <<Ord, Ord>>), Row(1, <<Ord, Ord>>)>>
+      [] c \in {"ods_row_repeat_empty", "ods_row_repeat_typed_empty"} ->
+           IF IsFirst(pos) THEN <<Row(mag, <<Cell(1, TRUE), Cell(1, TRUE)>>), Row(1, <<Ord, Ord>>), Row(1, <<Ord, Ord>>)>>
                             ELSE <<Row(1, <<Ord, Ord>>), Row(1, <<Ord, Ord>>), Row(mag, <<Cell(1, TRUE), Cell(1, TRUE)>>)>>
       [] c = "ods_cell_x_row" ->
-           IF pos = "first" THEN <<Row(mag, <<Cell(mag, FALSE)>>), Row(1, <<Ord>>)>>
+           IF IsFirst(pos) THEN <<Row(mag, <<Cell(mag, FALSE)>>), Row(1, <<Ord>>)>>
                             ELSE <<Row(1, <<Ord>>), Row(mag, <<Cell(mag, FALSE)>>)>>
       [] OTHER -> <<>>
 
-IsOds(c) == c \in {"ods_cell_repeat", "ods_cell_repeat_empty", "ods_row_repeat", "ods_row_repeat_empty", "ods_cell_x_row"}
+IsOds(c) == c \in {"ods_cell_repeat", "ods_cell_repeat_empty", "ods_row_repeat", "ods_row_repeat_empty", "ods_cell_x_row",
+                   "ods_cell_repeat_typed_empty", "ods_row_repeat_typed_empty"}
 
 \* what one cell element adds to the current row (ods_extractor.py:_extract_sheet, lines "if typed_value is
 \* None and cell_repeat > 100 ... else row_values.extend([...] * cell_repeat)")
@@ -192,6 +200,13 @@ RowCopies(row) ==
 Item(n, lo, hi, cap, dev) == [n |-> n, lo |-> lo, hi |-> hi, cap |-> cap, dev |-> dev]
 XlsxRows(mag) == Min(mag, 1048576)
 XlsxCols(mag) == Min(mag, 16384)
+
+\* as built (From, non-space run, any-run, four digits, end of line): quadratic when a long run of non-space characters follows "From " and the
+\* line does not match; sensitivity (a second any-run after the year): quadratic on many 4-digit runs without newline
+LongLineDev(pos) ==
+    IF pos \in {"digits.eof.last", "digits.eof.only", "nonspace.nl.last", "nonspace.nl.only", "nonspace.eof.last",
+                "nonspace.eof.only"} THEN "FromLineNestedQuantifier"
+    ELSE IF pos \in {"years.eof.last", "years.eof.only"} THEN "FromLineSecondStar" ELSE ""
 
 Items(c, mag, pos, skib) ==
     CASE c = "odf_space_count" -> <<Item(mag, ByteLo, ByteHi, SpaceCap, "UncappedSpaceCount")>>
@@ -211,6 +226,17 @@ Items(c, mag, pos, skib) ==
       [] c \in {"targz_ratio", "zip_ratio"} ->
            IF pos = "skipped" THEN <<Item(mag, ByteLo, ByteHi, 0, "")>> ELSE <<Item(mag, ByteLo, ByteHi, mag, "")>>
       [] c = "mbox_from" -> <<Item(mag, 64, 8192, mag, "")>>
+      \* n bitmap headers / PNG signatures in a Word binary stream followed by 128 KiB of pixel data: every input
+      \* byte belongs to at most ONE picture (reference), so nested headers cost one tail, not n tails
+      [] c = "doc_dib_headers" ->
+           IF pos = "nested" THEN <<Item(mag, 131072, 1048576, 1, "DibScanAdvancesByHeader")>>
+           ELSE <<Item(mag, 128, 1024, mag, "")>>
+      [] c = "doc_png_signatures" ->
+           IF pos = "nested" THEN <<Item(mag, 131072, 1048576, 1, "PngScanRestartsInsideImage")>>
+           ELSE <<Item(mag, 128, 1024, mag, "")>>
+      \* one "From " line of mag bytes: the separator scan visits every byte a bounded number of times (reference);
+      \* a pattern with two adjacent unbounded quantifiers needs ~ mag^2 / 16 steps when the line does not match
+      [] c = "mbox_longline" -> <<Item(SatMul(mag, mag \div 16), ByteLo, ByteHi, mag, LongLineDev(pos))>>
       [] c = "image_header" -> <<Item(SAT, 1024, 1024, 2000, "ImageScanNoProgress")>>   \* a header scan visits each segment once
       [] c = "pdf_loop" -> IF pos = "prev_loop" THEN <<Item(SAT, 1024, 1024, 1, "XrefPrevLoop")>>
                            ELSE <<Item(mag, SlotLo, SlotHi, 1, "")>>
